@@ -62,14 +62,21 @@ def run(case):
     m = sub(case["prop"].lower())
     tags = ["sub:" + case["prop"]]
     CTX.tick("c19:pair")
+    CTX.exc_trace = []
     r64 = under_width(np.int64, lambda: m.run(case["case"]))
+    t64, CTX.exc_trace = CTX.exc_trace, []
     CTX.take_alerts()
     r32 = under_width(np.int32, lambda: m.run(case["case"]))
+    t32, CTX.exc_trace = CTX.exc_trace, None
     alerts = CTX.take_alerts()
     tags += [t for t in r64["tags"] if t.split(":")[0] in ("r", "c", "recv", "op", "k", "mode", "ctor")][:4]
     if alerts:
         return violated("under the 32-bit configuration a structural invariant broke: %s" % (alerts[0],), tags + ["contract-32"])
     if r64["verdict"] == "held" and r32["verdict"] == "held":
+        if t64 != t32:
+            # the same calls were refused / accepted, but not in the same way: another kind of error under one width (or an extra internal refusal)
+            CTX.tick("c19:exception-kinds-differ")
+            return violated("%s case: the library calls raise %s under the 64-bit configuration and %s under the 32-bit configuration" % (case["prop"], t64[:8], t32[:8]), tags + ["width-dependent", "exception-kind"])
         return held(tags + ["both-held"], r64["nontrivial"])
     if r64["verdict"] == r32["verdict"] == "undefined":
         return undefined("the sub-case is outside its property's domain", tags)
